@@ -226,6 +226,16 @@ impl<const E: usize, const N: usize> UserLabels<E, N> {
         store.remove(USER_LABELS_KEY, buf)
     }
 
+    /// Verification hook: visit the `LabelList` of every registered endpoint.
+    #[cfg(rs_matter_verif)]
+    pub fn verif_for_each(&self, mut f: impl FnMut(EndptId, &[LabelEntry])) {
+        self.state.lock(|cell| {
+            for slot in cell.borrow().iter() {
+                f(slot.endpoint_id, slot.entries.as_slice());
+            }
+        })
+    }
+
     /// Serialise the current registry to `ctx.kv()` under
     /// [`USER_LABELS_KEY`]. Called from every mutating handler path
     /// after the in-memory change is committed.
